@@ -270,6 +270,28 @@ CHECKS["C14"] = {
                     "values are compared on the keys the frame layout documents (temperature, setpoint, mode, max_temp, window_open, ...)"],
 }
 
+CHECKS["C20"] = {
+    "specs": [("bind", "main", 2000, 80000)],
+    "budget": (150, 1800),
+    "rule": "one run = one of the five supported pairings (RND->CTL, DHW->CTL, CO2->FAN itho, REM->FAN nuaire, DIS->FAN orcon, with their "
+            "code lists, idx and 10E0 addenda) between two real Gateways (faked supplicant / faked respondent) on one virtual loop and one "
+            "RF hub; per transmitted frame and receiver: heard / lost / sent 2-3 times with 0-60 ms gaps (two copies may share a read) / "
+            "delayed by 10 ms .. 7 s placed around the 0.8 s, 3 s, 5 s and 5.1 s waits; echo heard / lost / doubled; third-party offers, "
+            "accepts and confirms (between other parties, or competing for this supplicant / respondent) at seeded instants; loop stalls, "
+            "timer ties; the supplicant starting 0 .. 5.2 s after (or before) the respondent, or one side alone. Then a second attempt "
+            "with the faults off. Oracle: every attempt ends (resp < 25 s, supp < 50 s) with a tuple or a binding-family error; with "
+            "nothing lost, delayed or contested both ends succeed with equal tuples whose packets were on the air; after each attempt "
+            "neither device is binding, the loop's exception handler is empty, and the second attempt succeeds. distinct = distinct "
+            "(flow, mode, outcome) traces; non-trivial = faults on",
+    "real": ["ramses_rf.binding_fsm (BindContext*, all states)", "device/base.py Fakeable", "dispatcher routing of 1FC9/10E0", "Command.put_bind",
+             "QoS send path with BINDING_QOS (impersonation alert, retries)", "two ramses_rf.Gateway + PortTransport each"],
+    "stub": STUB_RF + ["third-party binding frames written from the corpus examples"],
+    "assumptions": ["both roles run the library's code (no scripted supplicant/respondent yet); the respondent is made Fakeable the way the "
+                    "repository's tests do", "a frame delayed by more than 30 ms may be overtaken by the next one: such runs are judged for "
+                    "termination and clean-up, not for success", "a third party that competes in the same handshake (its offer while the "
+                    "respondent listens, its accept/confirm addressed to our devices) may win by design: not judged for tuple equality"],
+}
+
 
 def specs_for(prop: str, tier: str) -> list[tuple[str, str, int]]:
     out = []
@@ -363,11 +385,14 @@ MANIFEST_TEXT["C14"] = {
             "every lifetime; a reference model updated at delivery is the oracle for values, an independent lifetime table for _expired.",
     "design_ref": "DESIGN.md 7/C14", "technique": _TECH,
     "note": "The model never calls the library's parsers: every value is chosen by the plan and unique per transmission."}
+MANIFEST_TEXT["C20"] = {
+    "text": "Two real gateways bind over a simulated ether with per-frame loss, repeats, delays around every wait, echoes and third-party "
+            "binding traffic; history oracle on both ends' outcomes, tuples, timing, clean-up and a fault-free retry.",
+    "design_ref": "DESIGN.md 7/C20", "technique": _TECH,
+    "note": "All waits (0.8 s retry, 3 s, 5 s, 5.1 s, 10 s QoS) run on the virtual clock: a failed attempt costs milliseconds."}
 NOT_APPLICABLE = {
     "C03": "pure function of constructor arguments (decode(build(args)) = args): no schedule, clock, fault, history or second "
            "party to simulate; exhaustive/argument-space enumeration is outside this technique (DESIGN.md 8)",
     "C04": "pure scalar codec inverses over finite enumerable domains: no nondeterminism for a simulator to control "
            "(DESIGN.md 8)",
 }
-for _p in ("C20",):
-    NOT_APPLICABLE.setdefault(_p, "applicable, but its engine is not built yet in this round (see DESIGN.md 12 build order)")
